@@ -562,7 +562,7 @@ def fingerprints():
                             break
                     j += 1
                 blocks.append((i, j, re.sub(r"\s+", " ", m.group(1)).strip()))
-            for m in re.finditer(r"\bfn\s+([A-Za-z_][A-Za-z0-9_]*)\s*(?:<[^>{]*>)?\s*\(", text):
+            for m in re.finditer(r"\bfn\s+([A-Za-z_][A-Za-z0-9_]*)\s*[<(]", text):
                 k = text.find("{", m.end())
                 semi = text.find(";", m.end())
                 if k < 0 or (0 <= semi < k):
